@@ -111,7 +111,7 @@ func (r *objRun) call(h zygo.Sexp, name string, args ...zygo.Sexp) (zygo.Sexp, i
 	return r.ad.apply(name, append([]zygo.Sexp{h}, args...))
 }
 
-// the bookkeeping itself: non-empty buckets sorted by the decimal spelling of their code, KeyOrder, NumKeys
+// the bookkeeping itself: non-empty buckets sorted by the decimal spelling of their code, KeyOrder (identities), NumKeys
 func (r *objRun) state(h zygo.Sexp) string {
 	hh, ok := h.(*zygo.SexpHash)
 	if !ok {
@@ -123,9 +123,12 @@ func (r *objRun) state(h zygo.Sexp) string {
 			continue
 		}
 		var ps []string
+		// which object / spelling of a key a bucket holds, and the order inside a bucket, cannot be
+		// observed from a script: the key is recorded up to Compare = 0 (char as int), the pairs sorted
 		for _, p := range arr {
-			ps = append(ps, r.id(p.Head)+"/"+shape(p.Head)+"="+val(p.Tail))
+			ps = append(ps, strings.ReplaceAll(shape(p.Head), "C", "I")+"="+val(p.Tail))
 		}
+		sort.Strings(ps)
 		bs = append(bs, strconv.Itoa(code)+":"+strings.Join(ps, ","))
 	}
 	sort.Strings(bs)
